@@ -106,7 +106,10 @@ func ErrorCorrection_EncodeECC200(codewords []byte, symbolInfo *SymbolInfo) ([]b
 			}
 			ecc, _ := createECCBlock(temp, errorSizes[block])
 			pos := 0
-			for e := block; e < errorSizes[block]*blockCount; e += blockCount {
+			// The round-robin over the blocks continues after the data codewords: when their number is not a
+			// multiple of the block count (144x144: 1558 = 155*10 + 8) the check words start with block 8.
+			first := (block - symbolInfo.GetDataCapacity()%blockCount + blockCount) % blockCount
+			for e := first; e < errorSizes[block]*blockCount; e += blockCount {
 				sb[symbolInfo.GetDataCapacity()+e] = ecc[pos]
 				pos++
 			}
